@@ -44,6 +44,7 @@ var (
 	ErrHealthPortInUse     = errors.New("health port is already in use by listen port")
 	ErrMustNotBeRootPath   = errors.New("must not be root path")
 	ErrMustBeDifferentPath = errors.New("must be different path")
+	ErrInvalidCookiePrefix = errors.New("invalid cookie name prefix")
 )
 
 // LocalConfigFile is a run.Config that loads the configuration file.
@@ -161,6 +162,11 @@ func mergeAndValidateOIDCConfigs(cfg *configv1.Config) error {
 			// Set the defaults
 			applyOIDCDefaults(f.GetOidc())
 
+			// the cookie name prefix becomes part of the name of the session cookie
+			if !isCookieNameToken(f.GetOidc().GetCookieNamePrefix()) {
+				errs = append(errs, fmt.Errorf("%w: %q in chain %q", ErrInvalidCookiePrefix, f.GetOidc().GetCookieNamePrefix(), fc.Name))
+			}
+
 			// validate the logout path is not the root path
 			if f.GetOidc().GetLogout() != nil {
 				if isRootPath(f.GetOidc().GetLogout().GetPath()) {
@@ -192,6 +198,18 @@ func applyOIDCDefaults(config *oidcv1.OIDCConfig) {
 		}
 	}
 	config.Scopes = append(config.Scopes, ScopeOIDC)
+}
+
+// isCookieNameToken tells whether every character of s may be part of a cookie name (RFC 6265: a token,
+// that is visible US-ASCII without separators). Anything else would end the name, or inject attributes,
+// in the Set-Cookie header the session cookie is sent with.
+func isCookieNameToken(s string) bool {
+	for i := 0; i < len(s); i++ {
+		if c := s[i]; c <= ' ' || c >= 0x7f || strings.IndexByte("()<>@,;:\\\"/[]?={}", c) >= 0 {
+			return false
+		}
+	}
+	return true
 }
 
 func ConfigToJSONString(c *configv1.Config) string {
